@@ -264,6 +264,64 @@ FRONT_TABLE = {
 }
 
 
+ROW0_POSITIVE = """
+def log_prob(self, x):
+    times = torch.broadcast_to(self.times, self.mu.shape[:-1] + (3,))
+    grid = times.reshape(-1, times.shape[-1])[0]
+    g2 = times.flatten(0, -2)[0]
+    k = x.shape[0]
+    tips = x.flatten()[:4]
+    return torch.bucketize(x, grid), g2, k, tips
+"""
+
+
+def first_sample_rows(fn):
+    """`v.reshape(-1, n)[0]` / `v.view(-1, n)[0]` / `v.flatten(0, -2)[0]`: all sample axes are folded into one and its first entry is taken — sample 0 stands in for every
+    sample"""
+    out = []
+    for x in ast.walk(fn):
+        if not (isinstance(x, ast.Subscript) and isinstance(x.slice, ast.Constant) and isinstance(x.slice.value, int) and not isinstance(x.slice.value, bool)):
+            continue
+        c = x.value
+        if not (isinstance(c, ast.Call) and isinstance(c.func, ast.Attribute)):
+            continue
+        a = c.func.attr
+        folded = (a in ('reshape', 'view') and len(c.args) >= 2 and ast.unparse(c.args[0]) == '-1') or \
+                 (a in ('reshape', 'view') and len(c.args) == 1 and isinstance(c.args[0], (ast.Tuple, ast.List)) and len(c.args[0].elts) >= 2 and ast.unparse(c.args[0].elts[0]) == '-1') or \
+                 (a == 'flatten' and len(c.args) == 2 and ast.unparse(c.args[0]) == '0' and ast.unparse(c.args[1]) in ('-2', '-3'))
+        if folded:
+            out.append((x, c.func.value))
+    return out
+
+
+def check_first_sample_rows(ctx, rep, rule='C10.P', only=None):
+    t = ast.parse(ROW0_POSITIVE)
+    if len(first_sample_rows(t.body[0])) != 2:
+        raise AnalysisError(f'{rule} self-check: the rows of sample 0 in the embedded example are not recognised')
+    n = 0
+    for mname, m in sorted(ctx.prog.modules.items()):
+        if not any(mname.startswith(p) or mname == p.rstrip('.') for p in SCOPE_PACKAGES):
+            continue
+        if only is not None and not only(mname):
+            continue
+        for fn in ast.walk(m.tree):
+            if not isinstance(fn, ast.FunctionDef) or fn.name in SKIP_METHODS:
+                continue
+            n += 1
+            defs = local_assignments(fn)
+            cl = getattr(fn, '_parent', None)
+            scope = f"{cl.name}.{fn.name}" if isinstance(cl, ast.ClassDef) else fn.name
+            for x, operand in first_sample_rows(fn):
+                if any(x is y for sub in ast.walk(fn) if isinstance(sub, ast.FunctionDef) and sub is not fn for y in ast.walk(sub)):
+                    continue
+                if may_be_batched(operand, fn, defs):
+                    rep.bad(rule, f"{mname.replace('torchtree.', '')}.{scope}::{norm_text(x)[:60]}::row-of-the-first-sample", where(m, x), None,
+                            f"{scope}: `{norm_text(x)[:70]}` folds the sample axes of a value that can differ between samples and keeps entry 0: every sample is then evaluated with "
+                            f"the row of the first one (its epoch grid, its heights), the others' own values are ignored")
+    rep.ok(rule, 'first-sample-rows::scanned', '', {'functions_scanned': n})
+    return n
+
+
 FOREIGN_GUARD_POSITIVE = """
 def p_t(self, t):
     if len(self.frequencies.shape) == 1:
@@ -1036,6 +1094,7 @@ def run(ctx, rep):
     rep.rule('C10.A', "no element-wise operation combines a value that keeps the trailing event axis ([S, 1]) with one that dropped it ([S]) — an [S, S] outer combination of samples")
     check_joint(ctx, rep)
     check_front_axes(ctx, rep)
+    check_first_sample_rows(ctx, rep)
     from sa import axes
     axes.check_event_axes(ctx, rep, 'C10.A', SCOPE_PACKAGES, 15)
     rep.rule('C10.R', "element-wise operations and concatenations combine values of the same rank relative to the sample shape (ranks read from `<sample shape> + (…)` expansions and the documented layout of branch-model rates)")
